@@ -1,5 +1,335 @@
 import RSV.Model.Streams
-/-! placeholder replaced by the proved property file -/
+import RSV.Proofs.Streams
+/-!
+# C14 — streaming ≡ in-memory (fault-free readers and writers)
+
+Model: `RSV.Model.St` (`RSV/Model/Streams.lean`); lemmas: `RSV/Proofs/Streams.lean`.
+Fault-free reader `cleanRd data = ⟨data, none⟩`, fresh writer `cleanWr = ⟨[], none, false⟩`.
+"Independent of fragmentation" lives in `readFull`: the model has no fragmentation parameter.
+
+Column-locality of the in-memory codec (hypotheses of the loop theorems):
+* `EncLocal C`: on `C.d` rows of one non-zero length `C.encode` yields `C.p` rows, and
+  `C.encode (zipWith (++) b₁ b₂) = zipWith (++) (C.encode b₁) (C.encode b₂)` for two such inputs;
+* `VerLocal C`: `C.verify (zipWith (++) b₁ b₂) = (C.verify b₁ && C.verify b₂)` on `C.d + C.p` rows;
+* `RecOK C dataOnly want os orig L`: on every column window `[a, a+b) ⊆ [0, L)` of the present shards
+  `C.reconstruct` returns rows that agree with the windows of `orig` at the wanted indices.
+All three are proved for the toy codec `toy` (2 data + 1 xor parity), so none is vacuous.
+-/
 namespace RSV.Props.C14
-theorem C14_placeholder : True := trivial
+open RSV.Model.St RSV.Proofs.Streams
+
+/-! ## 1. `io.ReadFull` on a fault-free reader -/
+
+theorem C14_readFull_clean (data : List Nat) (want : Nat) :
+    readFull ⟨data, none⟩ want =
+      (data.take want,
+       (if want ≤ data.length then ReadOutcome.full
+        else if data = [] then ReadOutcome.eof else ReadOutcome.unexpectedEOF),
+       ⟨data.drop want, none⟩) := readFull_clean data want
+
+theorem C14_readFull_clean_outcome (data : List Nat) (want : Nat) :
+    ((readFull ⟨data, none⟩ want).2.1 = .full ↔ want ≤ data.length) ∧
+    ((readFull ⟨data, none⟩ want).2.1 = .eof ↔ data = [] ∧ 0 < want) ∧
+    ((readFull ⟨data, none⟩ want).2.1 = .unexpectedEOF ↔ data ≠ [] ∧ data.length < want) ∧
+    (readFull ⟨data, none⟩ want).2.1 ≠ .error := by
+  rw [readFull_clean]
+  cases data with
+  | nil => by_cases h : want = 0 <;> simp [h] <;> omega
+  | cons x xs => by_cases h : want ≤ xs.length + 1 <;> simp [h] <;> omega
+
+/-! ## 2. `readShards` on fault-free readers of one common remaining length -/
+
+theorem C14_readShards_equal (B n : Nat) (hB : 0 < B) (ss : List (List Nat)) (hne : ss ≠ [])
+    (hlen : ∀ s ∈ ss, s.length = n) :
+    readShards (List.replicate ss.length B) (ss.map fun s => some (cleanRd s)) =
+      if n = 0 then .eof (ss.map fun s => some (cleanRd (s.drop B)))
+      else .ok (ss.map (List.take B)) (ss.map fun s => some (cleanRd (s.drop B))) := by
+  have e : (ss.map fun s => some (cleanRd (s.drop B))) = cl (ss.map (List.drop B)) := by simp [cl]
+  rw [e]
+  show readShards _ (cl ss) = _
+  by_cases hn : n = 0
+  · subst hn; simp only [if_true]; exact readShards_cl_eof B hB ss hne hlen
+  · simp only [hn, if_false]
+    by_cases hBn : B ≤ n
+    · exact readShards_cl_full B ss (fun s hs => by rw [hlen s hs]; exact hBn)
+    · exact readShards_cl_short B n (by omega) (by omega) ss hlen
+
+/-! ## 3. / 4. `Encode` -/
+
+/-- **streaming Encode = in-memory Encode of the whole streams.**  Column-locality is `EncLocal`:
+`C.encode` yields `C.p` rows on `C.d` rows of a common non-zero length, and commutes with row-wise
+concatenation of two such inputs. -/
+theorem C14_encode (C : BlockCodec) (hC : EncLocal C) (hd0 : 0 < C.d) (conc : Bool) (B L : Nat)
+    (hB : 1 ≤ B) (hL : 1 ≤ L) (streams : List (List Nat)) (hd : streams.length = C.d)
+    (hlen : ∀ s ∈ streams, s.length = L) :
+    encode C conc B (streams.map fun s => some (cleanRd s)) (List.replicate C.p (some cleanWr)) =
+      ⟨none, (C.encode streams).map fun row => some ⟨row, none, false⟩⟩ := by
+  show encode C conc B (cl streams) _ = _
+  have hne : streams ≠ [] := by intro h; subst h; simp at hd; omega
+  have hpw : List.replicate C.p (some cleanWr) = pw (List.replicate C.p []) := by simp [pw, wrOf, cleanWr]
+  have htot : L ≤ ((cl streams).filterMap id).foldl (fun m r => max m r.data.length) 0 := by
+    obtain ⟨s, hs⟩ := List.exists_mem_of_ne_nil _ hne
+    rw [filterMap_cl, ← hlen s hs]
+    exact (foldl_max_ge _ 0).2 (cleanRd s) (List.mem_map.2 ⟨s, hs, rfl⟩)
+  have hfuel : L / B + 2 ≤ ((cl streams).filterMap id).foldl (fun m r => max m r.data.length) 0 / B + 3 := by
+    have := Nat.div_le_div_right (c := B) htot
+    omega
+  have h1 : ¬ (cl streams).length ≠ C.d := by simp [cl, hd]
+  have := encodeLoop_clean C hC conc hd0 _ B L hB hL hfuel streams hd hlen (List.replicate C.p [])
+    (by simp) 0
+  rw [hd] at this
+  simp only [encode, h1, if_false, ne_eq, hpw, this]
+  rw [zipWith_nil_left C.p _ (hC.len streams L hd hL hlen)]
+  simp [pw, wrOf]
+
+/-- writer `j` has received exactly row `j` of the in-memory parity of the whole streams -/
+theorem C14_encode_writer (C : BlockCodec) (hC : EncLocal C) (hd0 : 0 < C.d) (conc : Bool) (B L : Nat)
+    (hB : 1 ≤ B) (hL : 1 ≤ L) (streams : List (List Nat)) (hd : streams.length = C.d)
+    (hlen : ∀ s ∈ streams, s.length = L) (j : Nat) (hj : j < C.p) :
+    (encode C conc B (streams.map fun s => some (cleanRd s)) (List.replicate C.p (some cleanWr))).err = none ∧
+    ∃ h : j < (C.encode streams).length,
+      (encode C conc B (streams.map fun s => some (cleanRd s)) (List.replicate C.p (some cleanWr))).writers[j]? =
+        some (some ⟨(C.encode streams)[j], none, false⟩) := by
+  rw [C14_encode C hC hd0 conc B L hB hL streams hd hlen]
+  have hl := hC.len streams L hd hL hlen
+  exact ⟨rfl, by omega, by simp [hl, hj]⟩
+
+/-- all streams empty: `ErrShardNoData`, nothing written -/
+theorem C14_encode_empty (C : BlockCodec) (hd0 : 0 < C.d) (conc : Bool) (B : Nat) (hB : 1 ≤ B)
+    (streams : List (List Nat)) (hd : streams.length = C.d) (hlen : ∀ s ∈ streams, s.length = 0)
+    (writers : List (Option Wr)) (hp : writers.length = C.p) :
+    encode C conc B (streams.map fun s => some (cleanRd s)) writers = ⟨some .shardNoData, writers⟩ := by
+  show encode C conc B (cl streams) _ = _
+  have hne : streams ≠ [] := by intro h; subst h; simp at hd; omega
+  have h1 : ¬ (cl streams).length ≠ C.d := by simp [cl, hd]
+  simp only [encode, h1, if_false, hp, ne_eq, not_true_eq_false]
+  rw [← hd, encodeLoop_eof C conc _ B hB streams hne hlen]
+  simp
+
+
+/-! ## 5. `Verify` -/
+
+/-- **streaming Verify = in-memory Verify of the whole streams** (column-locality: `VerLocal`) -/
+theorem C14_verify (C : BlockCodec) (hC : VerLocal C) (hpos : 0 < C.d + C.p) (B L : Nat)
+    (hB : 1 ≤ B) (hL : 1 ≤ L) (streams : List (List Nat)) (hd : streams.length = C.d + C.p)
+    (hlen : ∀ s ∈ streams, s.length = L) :
+    verify C B (streams.map fun s => some (cleanRd s)) = (C.verify streams, none) := by
+  show verify C B (cl streams) = _
+  have hne : streams ≠ [] := by intro h; subst h; simp at hd; omega
+  have htot : L ≤ ((cl streams).filterMap id).foldl (fun m r => max m r.data.length) 0 := by
+    obtain ⟨s, hs⟩ := List.exists_mem_of_ne_nil _ hne
+    rw [filterMap_cl, ← hlen s hs]
+    exact (foldl_max_ge _ 0).2 (cleanRd s) (List.mem_map.2 ⟨s, hs, rfl⟩)
+  have hfuel : L / B + 2 ≤ ((cl streams).filterMap id).foldl (fun m r => max m r.data.length) 0 / B + 3 := by
+    have := Nat.div_le_div_right (c := B) htot
+    omega
+  have h1 : ¬ (cl streams).length ≠ C.d + C.p := by simp [cl, hd]
+  have := verifyLoop_clean C hC _ B L hB hL hfuel streams hne hd hlen 0
+  rw [hd] at this
+  simp only [verify, h1, if_false, this]
+
+/-- all streams empty: `ErrShardNoData` -/
+theorem C14_verify_empty (C : BlockCodec) (hpos : 0 < C.d + C.p) (B : Nat) (hB : 1 ≤ B)
+    (streams : List (List Nat)) (hd : streams.length = C.d + C.p) (hlen : ∀ s ∈ streams, s.length = 0) :
+    verify C B (streams.map fun s => some (cleanRd s)) = (false, some .shardNoData) := by
+  show verify C B (cl streams) = _
+  have hne : streams ≠ [] := by intro h; subst h; simp at hd; omega
+  have h1 : ¬ (cl streams).length ≠ C.d + C.p := by simp [cl, hd]
+  simp only [verify, h1, if_false]
+  rw [← hd, verifyLoop_eof C _ B hB streams hne hlen]
+  simp
+
+/-! ## 6. `Reconstruct` -/
+
+/-- fresh fault-free fill writers at the wanted indices, nil elsewhere -/
+def fillOf (want : List Bool) : List (Option Wr) := want.map fun w => if w then some cleanWr else none
+
+theorem fillOf_eq : ∀ (want : List Bool), fillOf want = wsOf (maskRows want (List.replicate want.length []))
+  | [] => rfl
+  | w :: want => by
+    have ih := fillOf_eq want
+    unfold fillOf wsOf maskRows at *
+    rw [List.length_cons, List.replicate_succ, List.zipWith_cons_cons, List.map_cons, List.map_cons, ih]
+    cases w <;> rfl
+
+theorem wsOf_maskRows : ∀ (want : List Bool) (rows : List (List Nat)),
+    wsOf (maskRows want rows) =
+      List.zipWith (fun w r => if w then some (⟨r, none, false⟩ : Wr) else none) want rows
+  | [], _ => by simp [wsOf, maskRows]
+  | _ :: _, [] => by simp [wsOf, maskRows]
+  | w :: want, r :: rows => by
+    have := wsOf_maskRows want rows
+    simp only [wsOf, maskRows] at this
+    cases w <;> simp [wsOf, maskRows, this, wrOf]
+
+/-- which in-memory call is made: `ReconstructData` (`dataOnly`) iff no parity index has a fill writer -/
+theorem C14_reconstruct_dataOnly (C : BlockCodec) (conc : Bool) (B : Nat) (valid : List (Option Rd))
+    (fill : List (Option Wr)) (hv : valid.length = C.d + C.p) (hf : fill.length = C.d + C.p)
+    (hdisj : (valid.zip fill).any (fun (v, f) => v.isSome && f.isSome) = false) :
+    reconstruct C conc B valid fill =
+      reconLoop C conc (!((fill.drop C.d).any Option.isSome)) B
+        (((valid.filterMap id).foldl (fun m r => max m r.data.length) 0) / B + 3)
+        (List.replicate (C.d + C.p) B) valid fill 0 ∧
+    ((!((fill.drop C.d).any Option.isSome)) = true ↔ ∀ w ∈ fill.drop C.d, w = none) := by
+  constructor
+  · simp [reconstruct, hv, hf, hdisj]
+  · simp only [Bool.not_eq_true', List.any_eq_false]
+    constructor
+    · intro h w hw
+      have := h w hw
+      cases w <;> simp_all
+    · intro h w hw
+      rw [h w hw]; simp
+
+/-- **streaming Reconstruct = the original shards.**  `os`: the valid streams (`none` = missing), all of
+length `L ≥ 1`; `want`: the indices with a (fresh, fault-free) fill writer, disjoint from the valid ones;
+`RecOK`: in-memory `Reconstruct`/`ReconstructData` (the variant chosen by the model) returns, on every
+column window of the present shards, the windows of the original shards `orig` at the wanted indices.
+Then there is no error and fill writer `i` has received the whole original shard `orig[i]`. -/
+theorem C14_reconstruct (C : BlockCodec) (conc : Bool) (B L : Nat) (hB : 1 ≤ B) (hL : 1 ≤ L)
+    (os : List (Option (List Nat))) (want : List Bool) (orig : List (List Nat))
+    (hos : os.length = C.d + C.p) (hwant : want.length = C.d + C.p) (horig : orig.length = C.d + C.p)
+    (hrows : ∀ r ∈ orig, r.length = L) (hlen : ∀ s, some s ∈ os → s.length = L) (hex : ∃ s, some s ∈ os)
+    (hdisj : ((os.map (Option.map cleanRd)).zip (fillOf want)).any (fun (v, f) => v.isSome && f.isSome) = false)
+    (hrec : RecOK C (!(((fillOf want).drop C.d).any Option.isSome)) want os orig L) :
+    reconstruct C conc B (os.map (Option.map cleanRd)) (fillOf want) =
+      ⟨none, List.zipWith (fun w r => if w then some (⟨r, none, false⟩ : Wr) else none) want orig⟩ := by
+  have h := (C14_reconstruct_dataOnly C conc B (os.map (Option.map cleanRd)) (fillOf want) (by simpa using hos)
+    (by simpa [fillOf] using hwant) hdisj).1
+  rw [h]
+  show reconLoop C conc _ B _ _ (rdsOf os) _ 0 = _
+  have htot : L ≤ ((rdsOf os).filterMap id).foldl (fun m r => max m r.data.length) 0 := by
+    obtain ⟨s, hs⟩ := hex
+    rw [← hlen s hs]
+    apply (foldl_max_ge _ 0).2 (cleanRd s)
+    rw [List.mem_filterMap]
+    exact ⟨some (cleanRd s), List.mem_map.2 ⟨some s, hs, rfl⟩, rfl⟩
+  have hfuel : L / B + 2 ≤ ((rdsOf os).filterMap id).foldl (fun m r => max m r.data.length) 0 / B + 3 := by
+    have := Nat.div_le_div_right (c := B) htot
+    omega
+  have hl : LensOK B (List.replicate (C.d + C.p) B) os := hos ▸ LensOK.replicate' B os
+  have := reconLoop_clean C conc (!(((fillOf want).drop C.d).any Option.isSome)) B want _ B L hB hL hfuel
+    _ os hl hlen hex orig (List.replicate want.length []) (by omega) hrows (by simp) hrec 0
+  rw [← fillOf_eq, zipWith_nil_left want.length orig (by omega), wsOf_maskRows] at this
+  exact this
+
+/-! ## 7. stream `Split` / `Join` -/
+
+/-- `Split` of a fault-free source holding exactly `size ≥ 1` bytes onto `d` fresh writers: no error;
+the writers receive the consecutive `perShard`-blocks of `data ++ zeros` -/
+theorem C14_split (d p : Nat) (hd : 0 < d) (data : List Nat) (hs : 1 ≤ data.length) (ps : Nat)
+    (hps : ps = (data.length + d - 1) / d) :
+    split d p ⟨data, none⟩ (List.replicate d (some cleanWr)) data.length =
+      ⟨none, (blocksOf ps d (data ++ List.replicate ((d + p) * ps - data.length) 0)).map
+        fun b => some ⟨b, none, false⟩⟩ := by
+  subst hps
+  have hpw : List.replicate d (some cleanWr) = pw (List.replicate d []) := by simp [pw, wrOf, cleanWr]
+  rw [hpw, split_clean d p hd data data.length hs (Nat.le_refl _) _ (by simp), List.take_length,
+    zipWith_nil_left d _ (blocksOf_length ..)]
+  simp [pw, wrOf]
+
+/-- writer `i` gets bytes `[i*ps, (i+1)*ps)` of `data ++ zeros`; the concatenation of all writers is
+`data ++ zeros (d*ps - size)` -/
+theorem C14_split_blocks (d p : Nat) (hd : 0 < d) (data : List Nat) (ps : Nat)
+    (hps : ps = (data.length + d - 1) / d) :
+    (∀ i, i < d → (blocksOf ps d (data ++ List.replicate ((d + p) * ps - data.length) 0))[i]? =
+        some (((data ++ List.replicate ((d + p) * ps - data.length) 0).drop (i * ps)).take ps)) ∧
+    (blocksOf ps d (data ++ List.replicate ((d + p) * ps - data.length) 0)).flatten =
+      data ++ List.replicate (d * ps - data.length) 0 := by
+  refine ⟨fun i hi => blocksOf_getElem? ps d _ i hi, ?_⟩
+  have hceil : data.length ≤ d * ps := hps ▸ le_mul_ceil data.length d hd
+  have hmul : (d + p) * ps = d * ps + p * ps := Nat.add_mul ..
+  rw [blocksOf_flatten, List.take_append, List.take_of_length_le hceil, List.take_replicate]
+  congr 2
+  omega
+
+/-- `Join` of the `d` streams written by `Split` (plus any further shards) with `outSize = size`
+writes exactly `data` -/
+theorem C14_split_join (d p : Nat) (hd : 0 < d) (data : List Nat) (ps : Nat)
+    (hps : ps = (data.length + d - 1) / d) (extra : List (Option Rd)) :
+    join d cleanWr
+      ((blocksOf ps d (data ++ List.replicate ((d + p) * ps - data.length) 0)).map (fun b => some (cleanRd b)) ++ extra)
+      data.length = (none, ⟨data, none, false⟩) := by
+  have hfl := (C14_split_blocks d p hd data ps hps).2
+  have := join_clean d [] (blocksOf ps d (data ++ List.replicate ((d + p) * ps - data.length) 0))
+    (blocksOf_length ..) extra data.length
+  rw [hfl] at this
+  simp only [cl, ← cleanWr_eq] at this
+  rw [this]
+  simp [wrOf]
+
+
+/-! ## non-vacuity: concrete runs (2 data + 1 xor parity toy codec `toy`, block size 2) -/
+
+example : readFull ⟨[1, 2, 3], none⟩ 2 = ([1, 2], .full, ⟨[3], none⟩) := by decide
+example : readFull ⟨[1, 2, 3], none⟩ 5 = ([1, 2, 3], .unexpectedEOF, ⟨[], none⟩) := by decide
+example : readFull ⟨[], none⟩ 5 = ([], .eof, ⟨[], none⟩) := by decide
+
+/-- streams of length 5 (blocks 2+2+1), sequential and concurrent -/
+example : encode toy false 2 [some (cleanRd [1, 2, 3, 4, 5]), some (cleanRd [6, 7, 8, 9, 10])] [some cleanWr]
+    = ⟨none, [some ⟨[7, 5, 11, 13, 15], none, false⟩]⟩ := by decide
+example : encode toy true 2 [some (cleanRd [1, 2, 3, 4, 5]), some (cleanRd [6, 7, 8, 9, 10])] [some cleanWr]
+    = ⟨none, [some ⟨[7, 5, 11, 13, 15], none, false⟩]⟩ := by decide
+/-- the same run as an instance of the theorem (`EncLocal toy` is proved) -/
+example : encode toy false 2 [some (cleanRd [1, 2, 3, 4, 5]), some (cleanRd [6, 7, 8, 9, 10])] [some cleanWr]
+    = ⟨none, (toy.encode [[1, 2, 3, 4, 5], [6, 7, 8, 9, 10]]).map fun row => some ⟨row, none, false⟩⟩ :=
+  C14_encode toy toy_encLocal (by decide) false 2 5 (by decide) (by decide) [[1, 2, 3, 4, 5], [6, 7, 8, 9, 10]] rfl
+    (by decide)
+example : encode toy false 2 [some (cleanRd []), some (cleanRd [])] [some cleanWr]
+    = ⟨some .shardNoData, [some cleanWr]⟩ := by decide
+example : verify toy 2 [some (cleanRd [1, 2, 3, 4, 5]), some (cleanRd [6, 7, 8, 9, 10]), some (cleanRd [7, 5, 11, 13, 15])]
+    = (true, none) := by decide
+example : verify toy 2 [some (cleanRd [1, 2, 3, 4, 5]), some (cleanRd [6, 7, 8, 9, 10]), some (cleanRd [7, 5, 11, 0, 15])]
+    = (false, none) := by decide
+example : reconstruct toy false 2 [some (cleanRd [1, 2, 3, 4, 5]), none, some (cleanRd [7, 5, 11, 13, 15])]
+      [none, some cleanWr, none]
+    = ⟨none, [none, some ⟨[6, 7, 8, 9, 10], none, false⟩, none]⟩ := by decide
+
+example : verify toy 2 [some (cleanRd [1, 2, 3, 4, 5]), some (cleanRd [6, 7, 8, 9, 10]), some (cleanRd [7, 5, 11, 13, 15])]
+    = (toy.verify [[1, 2, 3, 4, 5], [6, 7, 8, 9, 10], [7, 5, 11, 13, 15]], none) :=
+  C14_verify toy toy_verLocal (by decide) 2 5 (by decide) (by decide)
+    [[1, 2, 3, 4, 5], [6, 7, 8, 9, 10], [7, 5, 11, 13, 15]] rfl (by decide)
+
+/-- the `RecOK` hypothesis is satisfiable: data shard 1 missing, rebuilt from shard 0 and the parity -/
+theorem toy_recOK : RecOK toy true [false, true, false]
+    [some [1, 2, 3, 4, 5], none, some [7, 5, 11, 13, 15]]
+    [[1, 2, 3, 4, 5], [6, 7, 8, 9, 10], [7, 5, 11, 13, 15]] 5 := by
+  intro a b hb hab
+  have ha : a = 0 ∨ a = 1 ∨ a = 2 ∨ a = 3 ∨ a = 4 := by omega
+  have hb' : b = 1 ∨ b = 2 ∨ b = 3 ∨ b = 4 ∨ b = 5 := by omega
+  rcases ha with rfl | rfl | rfl | rfl | rfl <;> rcases hb' with rfl | rfl | rfl | rfl | rfl <;>
+    first
+    | exact ⟨_, rfl, rfl, by decide⟩
+    | omega
+
+example : reconstruct toy false 2 [some (cleanRd [1, 2, 3, 4, 5]), none, some (cleanRd [7, 5, 11, 13, 15])]
+      (fillOf [false, true, false])
+    = ⟨none, [none, some ⟨[6, 7, 8, 9, 10], none, false⟩, none]⟩ :=
+  C14_reconstruct toy false 2 5 (by decide) (by decide) [some [1, 2, 3, 4, 5], none, some [7, 5, 11, 13, 15]]
+    [false, true, false] [[1, 2, 3, 4, 5], [6, 7, 8, 9, 10], [7, 5, 11, 13, 15]] rfl rfl rfl (by decide)
+    (by intro s hs; simp at hs; rcases hs with rfl | rfl <;> rfl) ⟨_, List.mem_cons_self ..⟩ (by decide) toy_recOK
+
+example : split 3 2 ⟨[1, 2, 3, 4, 5, 6, 7], none⟩ [some cleanWr, some cleanWr, some cleanWr] 7
+    = ⟨none, [some ⟨[1, 2, 3], none, false⟩, some ⟨[4, 5, 6], none, false⟩, some ⟨[7, 0, 0], none, false⟩]⟩ := by decide
+example : join 3 cleanWr [some (cleanRd [1, 2, 3]), some (cleanRd [4, 5, 6]), some (cleanRd [7, 0, 0]), none, none] 7
+    = (none, ⟨[1, 2, 3, 4, 5, 6, 7], none, false⟩) := by decide
+
+/-! ## axioms -/
+#print axioms C14_readFull_clean
+#print axioms C14_readFull_clean_outcome
+#print axioms C14_readShards_equal
+#print axioms C14_encode
+#print axioms C14_encode_writer
+#print axioms C14_encode_empty
+#print axioms C14_verify
+#print axioms C14_verify_empty
+#print axioms fillOf_eq
+#print axioms wsOf_maskRows
+#print axioms C14_reconstruct_dataOnly
+#print axioms C14_reconstruct
+#print axioms C14_split
+#print axioms C14_split_blocks
+#print axioms C14_split_join
+#print axioms toy_recOK
+
 end RSV.Props.C14
